@@ -122,8 +122,8 @@ type Harness struct {
 	ncase int
 }
 
-const ruleText = "one case = (command, payload bytes, protocol state[, preceding messages / repetitions]), delivered through TWO streams: (1) framed on the wire to the real OneConnection.Run over a net.Pipe (fresh connection per case; version handshake through Run or state preset; for cases marked enc / trusted through the AES-GCM channel of a real xauth key exchange), (2) to the handler directly through the dispatch mirror; distinct = distinct (stream,command,state,payload); block bodies cut at and inside every transaction (child process) first, then the corpus of edge inputs and defect witnesses, three two-connection scenarios (abused fresh header then honest compact block; corrupt compact-block assembly A / B then honest full block), per-command structured generators with lying counts / CompactSize forms / wrapping counts (cmpctblock→blocktxn histories with 1-4 unresolved transactions answered with missing / repeated / unrequested / reordered transactions; authack unsigned / encrypted by a stranger / signed, payload 0 / 1 / n), a mutated copy of every third case, block / cmpctblock / cmpctblock→blocktxn for blocks that carry the Trusted mark (given by the operator's LastTrustedBlock through the real configuration path, by an authorised peer's encrypted channel, or left on a pending block by an earlier case) with txn_count / short-id / prefilled counts in every CompactSize form and in disagreement with the data (zero with and without transactions behind it, more, less, huge, cut), configuration histories (per run-time switch of the configuration: the operator changes it through the real set_config → common.Reset path while the peer is connected, the connection's Tick runs in between - in the direct stream also with the clock put forward -, ordinary messages in between, then any message of any command), raw wire bytes (FetchMessage, and the same bytes into Run), boundary lengths, addr/getaddr against a peers database at its record limit, a peer that does not read its socket (request histories up to the 16 MB send-buffer limit, and every replying command with the buffer preset around that limit; direct stream only), concurrent getdata/inv processing against inv routing in a child process, every handler + Tick + directed counting histories against a GetStats loop in a second child process, library entry points"
-const explText = "Stream 1 runs the REAL Run: the harness is the peer on the other end of a net.Pipe, nothing of Run is copied - FetchMessage, the version gate, the switch and its inline handlers, Tick/SendInvs, the writing thread, Run's recover() and the tear-down after the loop all execute. Observed after the peer hung up (or the node ended the connection): Run returned within the watchdog time; it did not go through its recover() (report captured from stdout); it closed its socket (Close is the last statement of Run, behind writing_thread_done.Wait: an open socket means Run left through a `return` in the loop or a panic and leaked the writing thread, the descriptor and the in-progress counts); BlocksToGet in-progress counts back at 0, getmp ticket free; c.Mutex and 13 package-level locks free; ban reason / misbehaviour points / parsed fields / replies compared with the Lean model by the same verdict function as stream 2. Stream 2 calls the handlers through VerifDispatch (a clause-by-clause copy of Run's switch that gen_c18 compares with Run's source on every run) and checks panic / locks held after return (c.Mutex, Mutex_net, MutexRcv, TxMutex, peersdb, cfg and 7 more) / wall time (watchdog: a handler that does not return is a failure, the locks held meanwhile are named); it also carries the slow-reader and full-database presets. Block parsing (NewBlock + BuildTxList, and `block` messages behind an accepted header) runs in a child process, because a panic in one of BuildTxList's worker goroutines ends the process whatever recover() the callers have: the child records the input it is about to run, the parent reports the bytes. A second child process runs a connection's own thread (getdata, inv, SendInvs) concurrently with NetRouteInv/NetRouteInvExt and a statistics reader, so that an unsynchronised access to the connection's shared maps (a fatal runtime error no recover() can catch) becomes an observation; a third one runs one connection's thread through the corpus, every generator, Tick and nine directed histories (the second audit's 33-byte blocktxn for a block not in progress among them) against a statistics reader that calls GetStats as fast as it can, and the parent requires that the reader saw the counters those histories exist for. Configuration histories and the trusted-block family carry pseudo commands in a case's history: @cfg = the text console's set_config / the web interface's configuration page (config lock, unmarshal over CFG, the real common.Reset()), @tick = the connection's periodic Tick (Run stream: the harness waits for the real Run to tick - first round of its loop, then every PeerTickPeriod, with a budget of whole periods per run; direct stream: c.Tick(now + seconds)); the configuration is restored through the same path after the case. For switches the parsing layer does not depend on the model's verdict is compared as usual, for the others only the property's predicate is evaluated. For every `block` case of the trusted family the model of btc.Block.BuildTxListExt (Model/NetParseState.lean: decoding of txn_count with its refusal of zero, transaction loop) is compared with the real function on a block object made from the header with the payload assigned to Raw (as netBlockReceived does), and CalcMerkle's last index for 0..4 hashes. Theorems (Props/C18) are about the model of the parsing layer, about the connection's map-typed fields under every history of function runs (conn_maps_total, on the assignment facts regenerated from the source), about PostCheckBlock's front + BuildTxListExt for trusted and untrusted blocks (postcheck_total, skeleton facts regenerated from lib/btc and lib/chain) and about the lock discipline facts regenerated from the source (including: no call, with a mutex held, of a function that locks the same mutex; no explicit panic between a Lock and its non-deferred Unlock except two proved unreachable); the backend behind the parser is exercised but not modelled. The library entry points (tx, block, script, signature, public key, address parsers) are FUZZED ONLY (panic / time), with no model beyond C09's Wire for the transaction decoder."
+const ruleText = "one case = (command, payload bytes, protocol state[, preceding messages / repetitions]), delivered through TWO streams: (1) framed on the wire to the real OneConnection.Run over a net.Pipe (fresh connection per case; version handshake through Run or state preset; for cases marked enc / trusted through the AES-GCM channel of a real xauth key exchange), (2) to the handler directly through the dispatch mirror; distinct = distinct (stream,command,state,payload); block bodies cut at and inside every transaction (child process) first, then the corpus of edge inputs and defect witnesses, three two-connection scenarios (abused fresh header then honest compact block; corrupt compact-block assembly A / B then honest full block), per-command structured generators with lying counts / CompactSize forms / wrapping counts (cmpctblock→blocktxn histories with 1-4 unresolved transactions answered with missing / repeated / unrequested / reordered transactions; authack unsigned / encrypted by a stranger / signed, payload 0 / 1 / n), a mutated copy of every third case, block / cmpctblock / cmpctblock→blocktxn for blocks that carry the Trusted mark (given by the operator's LastTrustedBlock through the real configuration path, by an authorised peer's encrypted channel, or left on a pending block by an earlier case) with txn_count / short-id / prefilled counts in every CompactSize form and in disagreement with the data (zero with and without transactions behind it, more, less, huge, cut), configuration histories (per run-time switch of the configuration: the operator changes it through the real set_config → common.Reset path while the peer is connected, the connection's Tick runs in between - in the direct stream also with the clock put forward -, ordinary messages in between, then any message of any command), penalty histories with elapsed time (periods of 0-3 penalising messages - second version, repeated getaddr, unrequested blocktxn, addr from the future, any structured message; or messages before a late version message -, each followed by 1 s .. 25 h passing with the connection kept alive - below / at / above the one-hour life time of a penalty record, around the 16-bit wrap of its time stamp - and the connection's Tick, then any message), raw wire bytes (FetchMessage, and the same bytes into Run), boundary lengths, addr/getaddr against a peers database at its record limit, a peer that does not read its socket (request histories up to the 16 MB send-buffer limit, and every replying command with the buffer preset around that limit; direct stream only), concurrent getdata/inv processing against inv routing in a child process, every handler + Tick + directed counting histories against a GetStats loop in a second child process, library entry points"
+const explText = "Stream 1 runs the REAL Run: the harness is the peer on the other end of a net.Pipe, nothing of Run is copied - FetchMessage, the version gate, the switch and its inline handlers, Tick/SendInvs, the writing thread, Run's recover() and the tear-down after the loop all execute. Observed after the peer hung up (or the node ended the connection): Run returned within the watchdog time; it did not go through its recover() (report captured from stdout); it closed its socket (Close is the last statement of Run, behind writing_thread_done.Wait: an open socket means Run left through a `return` in the loop or a panic and leaked the writing thread, the descriptor and the in-progress counts); BlocksToGet in-progress counts back at 0, getmp ticket free; c.Mutex and 13 package-level locks free; ban reason / misbehaviour points / parsed fields / replies compared with the Lean model by the same verdict function as stream 2. Stream 2 calls the handlers through VerifDispatch (a clause-by-clause copy of Run's switch that gen_c18 compares with Run's source on every run) and checks panic / locks held after return (c.Mutex, Mutex_net, MutexRcv, TxMutex, peersdb, cfg and 7 more) / wall time (watchdog: a handler that does not return is a failure, the locks held meanwhile are named); it also carries the slow-reader and full-database presets. Block parsing (NewBlock + BuildTxList, and `block` messages behind an accepted header) runs in a child process, because a panic in one of BuildTxList's worker goroutines ends the process whatever recover() the callers have: the child records the input it is about to run, the parent reports the bytes. A second child process runs a connection's own thread (getdata, inv, SendInvs) concurrently with NetRouteInv/NetRouteInvExt and a statistics reader, so that an unsynchronised access to the connection's shared maps (a fatal runtime error no recover() can catch) becomes an observation; a third one runs one connection's thread through the corpus, every generator, Tick and nine directed histories (the second audit's 33-byte blocktxn for a block not in progress among them) against a statistics reader that calls GetStats as fast as it can, and the parent requires that the reader saw the counters those histories exist for. Configuration histories and the trusted-block family carry pseudo commands in a case's history: @cfg = the text console's set_config / the web interface's configuration page (config lock, unmarshal over CFG, the real common.Reset()), @tick = the connection's periodic Tick (Run stream: the harness waits for the real Run to tick - first round of its loop, then every PeerTickPeriod, with a budget of whole periods per run; direct stream: c.Tick(now + seconds)); @age = that many seconds pass while the peer keeps the connection alive, then the connection's Tick (the penalty records are moved into the past through a verif hook; Run stream: the real Run's next Tick; direct stream: c.Tick(now), points and records before / after compared with the Lean model of expire_misbehave, which is proved total); the configuration is restored through the same path after the case. For switches the parsing layer does not depend on the model's verdict is compared as usual, for the others only the property's predicate is evaluated. For every `block` case of the trusted family the model of btc.Block.BuildTxListExt (Model/NetParseState.lean: decoding of txn_count with its refusal of zero, transaction loop) is compared with the real function on a block object made from the header with the payload assigned to Raw (as netBlockReceived does), and CalcMerkle's last index for 0..4 hashes. Theorems (Props/C18) are about the model of the parsing layer, about the connection's map-typed fields under every history of function runs (conn_maps_total, on the assignment facts regenerated from the source), about PostCheckBlock's front + BuildTxListExt for trusted and untrusted blocks (postcheck_total, skeleton facts regenerated from lib/btc and lib/chain) and about the lock discipline facts regenerated from the source (including: no call, with a mutex held, of a function that locks the same mutex; no explicit panic between a Lock and its non-deferred Unlock except two proved unreachable); the backend behind the parser is exercised but not modelled. The library entry points (tx, block, script, signature, public key, address parsers) are FUZZED ONLY (panic / time), with no model beyond C09's Wire for the transaction decoder."
 
 // finish removes the scratch directories (vlib's Finish exits the process) and reports.
 func (h *Harness) finish(rule, expl string, wedged bool) {
@@ -225,6 +225,9 @@ func (h *Harness) key(cs Case, s *stream) string {
 	}
 	if s.run && w == "" {
 		w = "Run"
+	}
+	if cs.Note == "age" {
+		return "age:" + what + ":" + w // (the cause lies in the history, whatever the last message is)
 	}
 	return cs.Cmd + ":" + what + ":" + w
 }
@@ -367,6 +370,9 @@ func (h *Harness) deliver(cs Case, run bool) bool {
 				what += " - caught by Run's recover(), which ends Run without its tear-down"
 			}
 		}
+		if n := cs.ages(); n > 0 {
+			what += fmt.Sprintf(" [history of %d messages on this connection with %d period(s) of elapsed time, the connection's Tick after each: the panic may be the Tick's]", len(cs.Seq)-n, n)
+		}
 		if len(o.Locks) > 0 && !o.Hang {
 			what += " locks still held after return: " + strings.Join(o.Locks, ",")
 		}
@@ -416,6 +422,9 @@ func (h *Harness) deliver(cs Case, run bool) bool {
 	// ---- 1a. a history in which the operator changed a switch the parsing layer depends on (or the clock
 	//          was put forward for a Tick): the model describes the handlers under the configuration the
 	//          harness starts with - the property itself has been evaluated above, nothing to compare
+	if !run && len(h.rn.ageObs) > 0 {
+		h.ageVerdict(cs, replay)
+	}
 	if cs.reconfigures() {
 		r.Hit("cfg:stream=" + s.name())
 		if !cs.cfgNeutral() {
@@ -1017,6 +1026,12 @@ func main() {
 	//     Tick runs in between, then any message
 	h.cfgHistories(gen, r.N(8, 60))
 	lap("cfg")
+	// 3d. penalty histories with elapsed time: penalties earned by earlier messages, an hour (less, more, the
+	//     16-bit wrap of the stored time) passing with the connection kept alive, the connection's Tick expiring
+	//     the records, then any message
+	h.rn.TickBudget += r.N(40, 600)
+	h.penaltyHistories(gen, r.N(120, 1500))
+	lap("age")
 	// 4. boundary lengths: every command at 0..limit edges
 	h.boundaries(gen)
 	lap("boundaries")
